@@ -97,7 +97,13 @@ def setup(env, n_eval, n_idx, use_default):
             return x.floor() if sym else _math.floor(x)
 
     seq = SimpleNamespace(get_duration=lambda include_fall_time=False: Dv)
-    if use_default:
+    if use_default == "mixed":
+        # one observable with its own times next to one that relies on the config default:
+        # both sets of times must be on the grid
+        k = len(ev) // 2
+        obs = [SimpleNamespace(evaluation_times=list(ev[:k])), SimpleNamespace(evaluation_times=None)]
+        default = SimpleNamespace(tolist=lambda: list(ev[k:]))
+    elif use_default:
         obs = [SimpleNamespace(evaluation_times=None)]
         default = SimpleNamespace(tolist=lambda: list(ev))
     else:
@@ -180,16 +186,16 @@ META = {
 
 def cases(tier):
     out = []
-    grid = [(0, 1, False), (1, 1, False), (1, 1, True), (0, 2, False)]
+    grid = [(0, 1, False), (1, 1, False), (1, 1, True), (0, 2, False), (2, 1, "mixed")]
     if tier != "quick":
-        grid += [(2, 1, False), (1, 2, False), (2, 1, True)]
+        grid += [(2, 1, False), (1, 2, False), (2, 1, True), (1, 1, "mixed")]
     for ne, ni, dflt in grid:
         out.append(
             Case(
-                f"grid_evals{ne}_idx{ni}{'_default' if dflt else ''}",
+                f"grid_evals{ne}_idx{ni}{'_mixed' if dflt == 'mixed' else '_default' if dflt else ''}",
                 grid_props(ne, ni, dflt),
                 covers=COVERS,
-                bounds={"evaluation_times": ne, "universal_grid_indices": ni, "duration": "1..10000 (integer)", "dt": "0.1..10000"},
+                bounds={"evaluation_times": ne, "times given by": "one observable with own times + one using the config default" if dflt == "mixed" else "the config default" if dflt else "the observable", "universal_grid_indices": ni, "duration": "1..10000 (integer)", "dt": "0.1..10000"},
                 canaries=["end_short", "huge_gap"],
                 timeout_ms=60000,
                 deadline_s=1500,
